@@ -286,21 +286,47 @@ type V1 struct {
 	A int    `json:"a"`
 	S string `json:"s"`
 }
+// V2 is deliberately not stable under a JSON round trip: memo is unexported
+// (lost), Extra holds an int that comes back as float64, and decoding rejects
+// A == 13.  A typed chain hands every step the value DECODED from the previous
+// step's JSON output, so f23 never sees memo or an int Extra, and a V2 with
+// A == 13 fails the second step.
 type V2 struct {
-	A int    `json:"a"`
-	S string `json:"s"`
-	B bool   `json:"b"`
+	A     int    `json:"a"`
+	S     string `json:"s"`
+	B     bool   `json:"b"`
+	Extra any    `json:"extra,omitempty"`
+	memo  int
 }
+
+func (v *V2) UnmarshalJSON(b []byte) error {
+	type plain V2
+	var p plain
+	if err := json.Unmarshal(b, &p); err != nil {
+		return err
+	}
+	if p.A == 13 {
+		return errors.New("V2: a == 13 is not a valid version-2 document")
+	}
+	*v = V2(p)
+	return nil
+}
+
 type V3 struct {
 	Total int    `json:"total"`
 	Label string `json:"label"`
 }
 
-func f12(v V1) V2 { return V2{A: v.A + 1, S: v.S + "!", B: v.A%2 == 0} }
+func f12(v V1) V2 {
+	return V2{A: v.A + 1, S: v.S + "!", B: v.A%2 == 0, Extra: 7, memo: v.A*3 + 1}
+}
 func f23(v V2) V3 {
-	t := v.A * 2
+	t := v.A*2 + v.memo
 	if v.B {
 		t++
+	}
+	if _, isInt := v.Extra.(int); isInt {
+		t += 1000
 	}
 	return V3{Total: t, Label: "<" + v.S + ">"}
 }
@@ -352,7 +378,7 @@ func RunTyped(c *TypedCase) *vkit.Outcome {
 			data, _ = json.Marshal(V1{ev.A, ev.S})
 		case 2:
 			tn = n2
-			data, _ = json.Marshal(V2{ev.A, ev.S, ev.B})
+			data, _ = json.Marshal(V2{A: ev.A, S: ev.S, B: ev.B})
 		case 3:
 			tn = n3
 			data, _ = json.Marshal(V3{ev.A, ev.S})
